@@ -349,7 +349,7 @@ func monC09(c *drv.Ctx) {
 		o := writerOpts{retain: true, cotenant: !san.PoolShim}
 		if r.Intn(3) == 0 {
 			o.bytesWriter = true
-			o.initClass = r.Intn(4)
+			o.initClass = r.Intn(5)
 			o.initLen = []int{0, 1, 64, 100, 1024, 4096, 4097, 8192}[r.Intn(8)]
 		}
 		cs.Desc = M{"config": cfgName, "ops": wOpsString(ops), "bytes_writer": o.bytesWriter, "init_class": o.initClass, "init_len": o.initLen}
